@@ -43,7 +43,8 @@ def _check_levels(tag, structure, seq, pairs, st, g, opt, fcfs_score):
         out.append(D(f"C02:{tag}:suboptimal", f"{structure!r} scores {sc}, optimum {opt}; stems {st}"))
     elif sc > opt:
         raise HarnessError(f"reference optimum {opt} below achieved proper score {sc} on {pairs}")
-    if opt is not None and not ssref.is_grundy(levels, g):
+    # ("no stem could be moved to a lower level" is a clause of its own: judged whether or not an optimum is known)
+    if not ssref.is_grundy(levels, g):
         out.append(D(f"C02:{tag}:stem-could-move-lower", f"{structure!r}: levels {levels} not greedy-stable"))
     if fcfs_score is not None and sc < fcfs_score:
         out.append(D(f"C02:{tag}:worse-than-fcfs", f"{structure!r} scores {sc} < FCFS {fcfs_score}"))
@@ -216,6 +217,8 @@ def plan(tier, seed):
     # the root; tolerances, gaps and early stops of the back-end act here)
     for k in range(8 if tier == "quick" else 16):
         specs.append({"kind": "dense", "examples": 120 if tier == "quick" else 2500, "seed": seed * 1000 + 800 + k})
+    # one long-range stem crossing 28-34 nested, bulge-separated stems (more crossing neighbours than bracket kinds)
+    specs.append({"kind": "stars", "ks": [29, 30, 31, 33] if tier == "quick" else list(range(28, 37))})
     # near-ties between crossing stems that lie hundreds of stems apart in 5'->3' order
     for n in ((130, 270) if tier == "quick" else (60, 130, 270, 400)):
         specs.append({"kind": "enclosing", "hairpins": n})
@@ -266,6 +269,14 @@ def run_shard(spec) -> ShardResult:
     elif kind == "blowup":
         run_hypothesis(PROP_ID, ssref.st_structures(max_abstract=spec["max_abstract"], min_abstract=2), oracle,
                        seed=spec["seed"], max_examples=spec["examples"], result=res, to_json=tj, classify=classify)
+        res.exhaustive = False
+    elif kind == "stars":
+        for k in spec["ks"]:
+            for stem_len in (1, 2, 3):
+                case = ssref.star(k, stem_len)
+                nt, labs = classify(case)
+                res.note_case([f"star", k, stem_len], nt, labs + [f"one-stem-crossing-{k}-others"], sample_cap=1)
+                check_case(PROP_ID, oracle, case, res, to_json=tj)
         res.exhaustive = False
     elif kind == "dense":
         from hypothesis import strategies as st
